@@ -185,6 +185,7 @@ func cmdCheck(args []string) int {
 		if u.Kinds != "" {
 			kindRe = regexp.MustCompile(u.Kinds)
 		}
+		e.kindFilter = kindRe
 		seen := map[string]bool{}
 		var fns = e.selectFuncsMulti(u.Funcs, seen)
 		if len(fns) < u.Expect {
